@@ -6,6 +6,11 @@
 set -u
 P=$1; I=$2; shift 2
 SRC=/tmp/agents/$P/_out/$I
+# re-evaluation of a seed that is already filed: take it from /verif/seeded
+if [ ! -f $SRC/patch.diff ] && [ -f /verif/seeded/$P-$I/patch.diff ]; then
+  SRC=/tmp/seedsrc-$P-$I-$$; mkdir -p $SRC; cp /verif/seeded/$P-$I/* $SRC/
+fi
+[ -f $SRC/patch.diff ] || { echo "no such seed: $P-$I"; exit 2; }
 W=/tmp/seedeval-$P-$I-$$
 export GOFLAGS=-mod=mod GOPROXY=off GOSUMDB=off GOTOOLCHAIN=local
 git -C /repo worktree add -q --detach $W HEAD || exit 2
@@ -29,7 +34,7 @@ git -C $W apply $SRC/patch.diff || { echo "PATCH DOES NOT APPLY"; res_compile=no
 (cd $W && go build ./... && go build -tags verif ./...) >/dev/null 2>&1 || res_compile=fail
 (cd $W && go test -count=1 ./... >/tmp/seedeval-tests-$$.log 2>&1) || res_tests=fail
 TAGS=""
-grep -qs "go:build verif" $DEMOS && TAGS=verif
+[ -n "$DEMOS" ] && grep -qs "go:build verif" $DEMOS && TAGS=verif
 DEMOPKG=$(place_demo)
 RUNPAT=$(grep -ho '^func Test[A-Za-z0-9_]*' $DEMOS | sed 's/^func //' | paste -sd'|')
 demo_with=$(cd $W && go test -count=1 -tags "$TAGS" -run "^($RUNPAT)\$" ./$DEMOPKG/ >/tmp/seedeval-demo-$$.log 2>&1 && echo pass || echo fail)
